@@ -783,6 +783,10 @@ func v6ErrClass(c v6Case, err error) string {
 	return "err:other"
 }
 
+// answers that carry no payload the getter could decode into its container
+var v6NoPayload = map[string]bool{"nf": true, "internal": true, "invalid": true, "reset": true, "ratelimit": true,
+	"hang": true, "dialfail": true, "silent": true, "empty": true}
+
 // v6CaseDeadline: the instant (fake time since the call) the caller's context ends; 0 = never.
 func v6CaseDeadline(c v6Case) time.Duration {
 	if len(c.D) > 1 && (c.D[0] == 'd' || c.D[0] == 'c') {
@@ -912,18 +916,31 @@ func v6Judge(c v6Case, s *v6Square, out *v6CallOut, returned bool, keys []string
 		ex.mu.Unlock()
 	}
 	if (allShrex || allBs) && out.err != nil {
-		prev := "none"
+		// the mechanism is named after the first answer that put bytes into the getter's container before the
+		// honest one (what a later rejection of honest data can stem from); failing that, after the first answer
+		prev, prevAny := "", ""
 		for _, a := range arrived {
 			if a == "honest" || a == "bs:honest" {
 				break
 			}
-			prev = a
+			if prevAny == "" {
+				prevAny = a
+			}
+			if prev == "" && !v6NoPayload[strings.TrimPrefix(a, "bs:")] {
+				prev = a
+			}
+		}
+		if prev == "" {
+			prev = prevAny
+		}
+		if prev == "" {
+			prev = "none"
 		}
 		via := "shrex"
 		if !allShrex {
 			via = "bitswap"
 		}
-		return outcome + "+HONEST-REJECTED", "C06/honest-rejected/" + cl + "/after=" + strings.SplitN(prev, ":", 2)[0],
+		return outcome + "+HONEST-REJECTED", "C06/honest-rejected/" + cl + "/after=" + strings.SplitN(strings.TrimPrefix(prev, "bs:"), ":", 2)[0],
 			fmt.Sprintf("%s: a complete honest %s response was received while the call was alive, yet the call failed: %q", c, via, v6Short(out.err))
 	}
 	// 4. not found
